@@ -104,7 +104,10 @@ def dec(o):
             dt = dt.replace(fold=1)
         if "tz" in o:
             from mc import zones
-            dt = dt.replace(tzinfo=zones.build(dec(o["tz"])))
+            try:
+                dt = dt.replace(tzinfo=zones.build(dec(o["tz"])))
+            except Exception:
+                return o          # a zone known only by its repr: keep the tagged form (readable, not rebuildable)
         return dt
     if "$date" in o:
         return D.date.fromisoformat(o["$date"])
